@@ -9,6 +9,18 @@ K = 'bounded model checking of the real code with Kani/CBMC (SAT)'
 M = 'bounded symbolic execution of the real MIR with an SMT solver (mirsym + z3)'
 
 CHECKS = {
+    'C10': dict(engine='M', cat='other',
+                text='bounded symbolic execution of the real loader on structured manifests: an abstract build statement (paths per role, escapes) and '
+                     'an abstract command value are rendered under symbolic spelling choices (separators, continuations, $v vs ${v}, escapes) with '
+                     'symbolic bytes inside names and literals; the solver shows the loaded graph equals the declared one on every path',
+                note='trusted: std models; the abstract-side oracle (checks/manifestlib.py) is the meaning of the syntax; free-form inputs are C12',
+                tech=M + ', differential against an abstract-side oracle', ref='DESIGN.md section 4, C10'),
+    'C11': dict(engine='M', cat='other',
+                text='bounded symbolic execution of the real loader and evaluator on manifests whose bindings at file, rule and build level (and across '
+                     'nested include / subninja files) are drawn symbolically; an abstract-side evaluator of the documented scoping rules states what '
+                     'every command, description and path must expand to',
+                note='trusted: std models, the abstract evaluator (manifestlib.expand); known finding: include does not extend the including scope',
+                tech=M + ', differential against an abstract-side evaluator', ref='DESIGN.md section 4, C11'),
     'C02': dict(engine='M', cat='other',
                 text='bounded symbolic execution of the real dirty check (check_build_dirty, hash_build, record_finished, write_build) with '
                      'symbolic recorded and current mtimes (64+32 bit per file), missing flags, command / response-file text and file numbering: '
@@ -77,10 +89,12 @@ CHECKS = {
                      'over a six-byte alphabet; memory safety, length, idempotence and equality with a reference model are decided by the SAT solver, not sampled',
                 note='trusted: Kani/CBMC memory model and the reference model in hooks/canon.rs; bounded by path length (quick: safe n<=6, full n<=4)',
                 tech=K + ', differential against a reference model', ref='DESIGN.md section 4, C13'),
-    'C14': dict(engine='K', cat='other',
-                text='bounded symbolic execution (Kani/CBMC) of the real BuildOuts::remove_duplicates against a first-occurrence oracle for all id vectors up to length 4 (5 thorough)',
-                note='trusted: Kani/CBMC model of Vec; the add_build/second-producer part is added with the M loader harness',
-                tech=K, ref='DESIGN.md section 4, C14'),
+    'C14': dict(engine='K+M', cat='other',
+                text='Kani/CBMC on the real BuildOuts::remove_duplicates against a first-occurrence oracle for all id vectors up to length 4 (5 thorough), and '
+                     'mirsym on the real loader for manifests repeating outputs within one statement and across two (multiplicity, explicit/implicit '
+                     'boundary, canon-equivalent spellings): second producer => error citing both statements; repeats => one warning each, listed once',
+                note='trusted: Kani/CBMC model of Vec; std models of mirsym; captured stdout model for the warnings',
+                tech=K + '; ' + M, ref='DESIGN.md section 4, C14'),
     'C15': dict(engine='M', cat='other',
                 text='bounded symbolic execution of the real read_depfile/depfile::parse against a reference reading on the same symbolic buffer: '
                      'for every string of each stated length over the stated alphabet the solver shows both reject, or both accept with identical prerequisites',
